@@ -1,4 +1,4 @@
-HOOK_COMMITS = ['a5e1d44']
+HOOK_COMMITS = ['a5e1d44', '40b55f7']
 NOT_APPLICABLE = {}
 PROOF_NOTE = ('Trusted: Lean kernel; axioms limited to propext/Classical.choice/Quot.sound (audited each run); the hand-written model is tied to the Go code by '
               'differential correspondence on the explored cases (not a proof about the Go source); ')
@@ -46,5 +46,12 @@ META = {
                 'operator pair/triple/construct sweep comparing ast String() with a Lean precedence parser.',
         'note': 'Trusted: Lean kernel, standard axioms, the extractor and goyacc\'s y.output; LALR-vs-precedence-parser equivalence on all strings is not proved (finite validation + exhaustive small combinations).',
         'technique': 'Lean 4 proof (shift-reduce = canonical tree, arbitrary precedence) + decide over regenerated grammar facts and goyacc tables + exhaustive parser correspondence',
+    },
+    'C16': {
+        'text': 'Theorems: the lexer buffer (io.ReadAll) is the same byte string for every chunking of the input; a run of any number of blank/comment lines is exactly one RET (or MULTILINE_*_CHAIN) token leaving exactly '
+                'the continuation; comments, double-quoted strings, raw strings and identifiers of any length are one token. The regexes the matchers transcribe are regenerated from the lexer on every run. '
+                'Tied to the real lexer/parser by regex-vs-matcher runs, token-length sweeps around 1/2/3/8 KiB and padded / chunked variants of real programs.',
+        'note': PROOF_NOTE + 'Go regexp semantics and the rest of the token table are not modelled.',
+        'technique': 'Lean 4 proof (suffix-returning matchers, induction over runs/lengths/chunkings) + regenerated regex facts + size/chunk sweeps on the real parser',
     },
 }
